@@ -175,7 +175,7 @@ func annotationText(anns []bufx.Annotation) []byte {
 }
 
 func scenarios() []Scenario {
-	return append(append(apiScenarios(), lintWithPluginsScenario()), cliScenarios()...)
+	return append(append(apiScenarios(), lintWithPluginsScenario(), lintWithFailingPluginScenario(), overlappingPathsScenario()), cliScenarios()...)
 }
 
 func apiScenarios() []Scenario {
@@ -275,11 +275,9 @@ func apiScenarios() []Scenario {
 			if err == nil {
 				return nil, fmt.Errorf("vacuous: formatting invalid files succeeded")
 			}
-			// the error of a parallel run joins the job errors; their order is the order in which jobs failed,
-			// so the text is compared as a sorted multiset of lines
-			lines := strings.Split(err.Error(), "\n")
-			sort.Strings(lines)
-			return []byte(strings.Join(lines, "\n")), nil
+			// the error of a parallel run joins the errors of the failing jobs: the text, including the order of
+			// its lines, is output and must not depend on which job failed first
+			return []byte(err.Error()), nil
 		}},
 		{Name: "breaking v1 overlapping ignore_only", Variants: 2, Walks: false, Run: func(ctx context.Context, e *Env) ([]byte, error) {
 			// ignore_only names a deprecated rule id and its replacement with different paths (both listing orders)
@@ -1045,4 +1043,45 @@ func run(r *evid.Run) {
 	if perDim["job-order"] == 0 {
 		r.Incomplete("vacuity: no thread.Parallelize call with >= 2 jobs was seen")
 	}
+}
+
+// overlappingPathsScenario: target paths that contain each other, listed in every order (the argument order of
+// --path is an input order): target file list and image must be the same for all of them.
+func overlappingPathsScenario() Scenario {
+	paths := []string{"proto/acme", "proto/acme/v1", "proto/acme/v1/a.proto", "proto/fill"}
+	perms := enum.Permutations(len(paths))
+	return Scenario{Name: "overlapping --path values in every order", Variants: len(perms), Walks: true, Run: func(ctx context.Context, e *Env) ([]byte, error) {
+		perm := perms[e.Variant%len(perms)]
+		ordered := make([]string, len(paths))
+		for i, p := range perm {
+			ordered[i] = paths[p]
+		}
+		ws, err := bufx.Workspace(ctx, e.bucket(workspace(0, false)), ".", ordered, nil, bufx.NopProviders)
+		if err != nil {
+			return nil, err
+		}
+		var lines []string
+		for _, m := range ws.Modules() {
+			infos, err := bufmodule.GetTargetFileInfos(ctx, m)
+			if err != nil {
+				return nil, err
+			}
+			for _, fi := range infos {
+				lines = append(lines, m.OpaqueID()+" "+fi.Path())
+			}
+		}
+		sort.Strings(lines) // a file listed twice stays listed twice
+		if len(lines) < 5 {
+			return nil, fmt.Errorf("vacuous: %d target files", len(lines))
+		}
+		img, err := bufx.BuildWorkspaceImage(ctx, ws)
+		if err != nil {
+			return nil, err
+		}
+		data, err := marshalImage(img)
+		if err != nil {
+			return nil, err
+		}
+		return []byte(strings.Join(lines, "\n") + fmt.Sprintf("\n%x", data)), nil
+	}}
 }
